@@ -112,4 +112,26 @@ theorem C07_unaffected_pcmp (ops : FieldOps α) (ti : TypeInfo) (it : Item) (k k
       specPartialCmp ops ti it.eraseInc (.adt k fa) (.adt k' fb) := by
   simp [specPartialCmp, hda, hdb, hm, hia, hib, eraseInc_variants, eraseInc_marked, relevantIdx_eraseInc]
 
+/-- **"Hence `<`, `<=`, `>`, `>=` are false and `!=` is true"**: with `core`'s provided operator methods over the
+derived `eq` / `partial_cmp`, a marked operand makes all four comparisons false and `!=` true — also for a value
+compared with itself. -/
+theorem C07_operators (ops : FieldOps α) (ti : TypeInfo) (it : Item) (k k' : Nat) (fa fb : List (Val α))
+    (da db : Data) (hda : it.variants[k]? = some da) (hdb : it.variants[k']? = some db)
+    (h : it.markedIncomparable = true ∨ da.incomparable = true ∨ db.incomparable = true) :
+    let o := specPartialCmp ops ti it (.adt k fa) (.adt k' fb)
+    ltOf o = false ∧ leOf o = false ∧ gtOf o = false ∧ geOf o = false ∧
+      neOf (specEq ops it (.adt k fa) (.adt k' fb)) = true := by
+  simp only [C07_marked_pcmp ops ti it k k' fa fb da db hda hdb h, C07_marked_eq ops it k k' fa fb da db hda hdb h]
+  simp [ltOf, leOf, gtOf, geOf, neOf]
+
+/-- The operators are determined by `partial_cmp` the way the std contracts say: `a < b` iff `partial_cmp = Some(Less)`,
+`a <= b` iff `a < b` or `partial_cmp = Some(Equal)`, and symmetrically; never two of `<`, `==`-by-order, `>` at once. -/
+theorem operators_of_partial_cmp (o : Option Ordering) :
+    (ltOf o = true ↔ o = some .lt) ∧ (gtOf o = true ↔ o = some .gt) ∧
+    (leOf o = (ltOf o || o == some .eq)) ∧ (geOf o = (gtOf o || o == some .eq)) ∧
+    (o = none → ltOf o = false ∧ leOf o = false ∧ gtOf o = false ∧ geOf o = false) := by
+  cases o with
+  | none => simp [ltOf, leOf, gtOf, geOf]
+  | some x => cases x <;> simp [ltOf, leOf, gtOf, geOf]
+
 end DW
